@@ -460,7 +460,7 @@ def _trso_cases(rng, tier):
     out = _corpus("trso")
     out += _two_domain_cases(rng, {"quick": 700, "escalated": 700}.get(tier, 6000))
     out += [dict(c, src="trso") for c in c05.cases(rng, "quick" if tier == "escalated" else tier)
-            if c["kind"] == "identify" and "malformed" not in c]
+            if c["kind"] == "identify" and "malformed" not in c and c.get("stream") != "two_domain"]
     return out
 
 
